@@ -192,6 +192,19 @@ def gen_program(rng, force_term=None):
         main.append(o)
     W.update(saveW)
     if use_term:
+        # a terminated thread may leave a mutex locked for ever: the root must then never block without a timeout
+        # (timed sections only, no condvar wait, whose re-lock is untimed), or the program could hang by design
+        def bounded(ops):
+            out = []
+            for o in ops:
+                if o[0] == "w":
+                    out.append(("y",))
+                elif o[0] == "c":
+                    out.append(("c", o[1], o[2] if o[2] is not None else 0.0005, bounded(o[3])))
+                else:
+                    out.append(o)
+            return out
+        main = bounded(main)
         # terminate a thread, preferably while it is blocked: after a sleep of the root
         victim = rng.randrange(1, n)
         killer = 0 if rng.random() < 0.7 else rng.choice([i for i in range(1, n) if i != victim] or [0])
